@@ -296,6 +296,45 @@ func (c *c20) tag(num int, wt int) {
 	c.out.Emit(ev)
 }
 
+// tagIn: the tag decoders on arbitrary bytes
+func (c *c20) tagIn(in []byte) {
+	ev := map[string]interface{}{"ev": "PTagIn", "in": B(in)}
+	rn, rt, k := rwire.ConsumeTag(in)
+	ev["refn"], ev["refnum"], ev["refwt"] = k, int(rn), int(rt)
+	if k < 0 {
+		ev["refnum"], ev["refwt"] = 0, 0
+	}
+	var res []map[string]interface{}
+	for _, api := range []string{"ConsumeTag", "ConsumeTagWithoutMove"} {
+		r := map[string]interface{}{"api": api, "st": "skipped", "num": 0, "wt": 0, "n": 0, "pos": 0}
+		func() {
+			defer func() {
+				if e := recover(); e != nil {
+					r["st"] = "panic:" + fmt.Sprint(e)
+				}
+			}()
+			q := dbin.NewBinaryProtol(append([]byte{}, in...))
+			var num dproto.FieldNumber
+			var wt dproto.WireType
+			var n int
+			var err error
+			if api == "ConsumeTag" {
+				num, wt, n, err = q.ConsumeTag()
+			} else {
+				num, wt, n, err = q.ConsumeTagWithoutMove()
+			}
+			if err != nil {
+				r["st"] = "err"
+				return
+			}
+			r["st"], r["num"], r["wt"], r["n"], r["pos"] = "ok", int(num), int(wt), n, q.Read
+		}()
+		res = append(res, r)
+	}
+	ev["res"] = res
+	c.out.Emit(ev)
+}
+
 // ---- descriptor-driven writer / reader ----
 
 func goScalar(fd protoreflect.FieldDescriptor, v protoreflect.Value) interface{} {
@@ -690,6 +729,27 @@ func (c *c20) run(seed int64, n int, maxLen int) {
 		for _, num := range []int{1, 15, 16, 2047, 2048, 262143, 262144, 33554431, 33554432, 268435455, 268435456, 536870911} {
 			for _, wt := range []int{0, 1, 2, 5} {
 				c.tag(num, wt)
+			}
+		}
+	})
+	// tags as they may arrive: numbers around and beyond every limit (2^29-1, 2^31-1, 2^32, 2^61), minimal and over-long varints
+	step(func() {
+		for _, num := range []uint64{0, 1, 15, 16, 1<<28 - 1, 1 << 28, 1<<29 - 1, 1 << 29, 1<<31 - 1, 1 << 31, 1<<32 - 1, 1 << 32, 1<<32 + 1, 1<<32 + 1<<28, 1<<35 + 7, 1 << 40, 1<<60 + 1, 1<<61 - 1} {
+			for _, wt := range []uint64{0, 2, 5, 7} {
+				v := num<<3 | wt
+				enc := rwire.AppendVarint(nil, v)
+				c.tagIn(append(append([]byte{}, enc...), 0x08, 0x01))
+				c.tagIn(enc[:len(enc)-1]) // cut
+				// over-long spelling: continuation bits on, zero bytes behind, up to ten bytes
+				for l := len(enc) + 1; l <= 10; l++ {
+					long := append([]byte{}, enc...)
+					long[len(long)-1] |= 0x80
+					for len(long) < l-1 {
+						long = append(long, 0x80)
+					}
+					long = append(long, 0x00)
+					c.tagIn(append(long, 0x08))
+				}
 			}
 		}
 	})
